@@ -122,6 +122,7 @@ def check_generic(ctx, gq):
     W = ctx.where(f.module, f.node)
     is_match = lambda x: substituted_match(t, x, target_p)
     n_lit = n_walk = n_subst = 0
+    unread = None
     for p in t.paths:
         where = '%s:%d' % (W.split(':')[0], p.outcome.line)
         excs = [c for c in p.conds if c.kind == 'exc']
@@ -133,15 +134,54 @@ def check_generic(ctx, gq):
         e = t.expand(p.outcome.expr)
         if is_const(e):
             n_subst += 1
-            ok = e.value is False and len(excs) == 1 and 'KeyError' in str(
-                excs[0].expr.value)
+            # ... possibly after the literal attempt has failed as well
+            ok = e.value is False and excs and any(
+                'KeyError' in str(x.expr.value) for x in excs) and all(
+                'KeyError' in str(x.expr.value) or any(
+                    ev.kind == 'maycall' and isinstance(
+                        ev.node, ast.Call) and prog.resolve(
+                            f.module, ev.node.func) == 'ext:ast.literal_eval'
+                    for ev in p.events) for x in excs)
             ctx.ob('C05.DENY', ok, where, f.qual,
                    '%s -> %s' % (p.cond_text(), U(e)),
                    'a missing target key denies' if ok else
                    'constant result %r on path %s' % (e.value,
                                                       p.cond_text()))
             continue
-        if isinstance(e, ast.Compare):
+        has_lit = any(isinstance(x, ast.Call) and prog.resolve(
+            f.module, x.func) == 'ext:ast.literal_eval' for x in ast.walk(e))
+        if isinstance(e, ast.Call) and prog.callee_of(
+                prog.functions.get(p.outcome.frame, f), e) is walker and \
+                has_lit:
+            # walker(<literal>, <empty path>, match): the walker's base case
+            # (checked by C05.WALK) is `match == str(value)`
+            wp = walker.params[1:] if walker.cls is not None \
+                else walker.params
+            bound = dict(zip(wp, e.args))
+            for k in e.keywords:
+                bound[k.arg] = k.value
+            if len(wp) >= 3:
+                root, segs, m = (bound.get(wp[0]), bound.get(wp[1]),
+                                 bound.get(wp[2]))
+                sx = t.expand(segs) if segs is not None else None
+                rx = t.expand(root) if root is not None else None
+                if isinstance(sx, (ast.Tuple, ast.List)) and not sx.elts \
+                        and isinstance(rx, ast.Call) and prog.resolve(
+                            f.module, rx.func) == 'ext:ast.literal_eval' \
+                        and len(rx.args) == 1 and U(rx.args[0]) == \
+                        'self.kind':
+                    n_lit += 1
+                    ok = m is not None and is_match(m)
+                    ctx.ob('C05.LITERAL-FIRST', ok and not excs, where,
+                           f.qual, 'literal result ' + U(e)[:80],
+                           'a literal left side decides by the walker\'s '
+                           'base case, match == str(literal)' if ok and
+                           not excs else
+                           'the literal comparison is not `substituted '
+                           'match == str(literal_eval(kind))`')
+                    continue
+        if isinstance(e, ast.Compare) and (has_lit or isinstance(
+                e.ops[0], (ast.Eq, ast.NotEq))):
             n_lit += 1
             ok = eq_match_str(
                 e, is_match, lambda v: isinstance(v, ast.Call) and
@@ -197,8 +237,17 @@ def check_generic(ctx, gq):
                    'compares with the substituted match' if ok_m else
                    'the walker is not given the substituted match')
             continue
-        ctx.ob('C05.DENY', False, where, f.qual, 'result ' + U(e),
-               'unrecognised result of the generic check')
+        if isinstance(e, ast.UnaryOp) and isinstance(e.op, ast.Not):
+            ctx.ob('C05.DENY', False, where, f.qual, 'result ' + U(e)[:80],
+                   'the generic check answers the negation of a comparison '
+                   '/ path walk')
+            continue
+        unread = unread or (where, U(e)[:80])
+    if unread is not None and not ctx.findings:
+        raise AnalysisError(
+            'the generic check answers `%s` (%s): not a literal comparison, '
+            'a path walk or a constant; what it decides is not one of the '
+            'shapes this analysis reads' % (unread[1], unread[0]))
     ctx.count(len(t.paths))
     ctx.floor('C05.LITERAL-FIRST', n_lit, 1, 'literal comparisons')
     ctx.floor('C05.WALK', n_walk, 1, 'path walks')
